@@ -182,6 +182,43 @@ def check(run):
                                   "cfg": dict(cfg, scenario="segment without postings"), "plan": plan, "adocs": adocs})
             finally:
                 w.close()
+    # an AsyncWriter that had to wait for the lock commits with the arguments it was given: a CLEAR commit drops
+    # every earlier segment, as it does with a plain writer
+    from whoosh import writing
+    for si in range(1 if quick else 3):
+        keys = ["c%d" % i for i in range(7)]
+        adocs = dict((k, cworld.rand_adoc(rng, k)) for k in keys)
+        plan = [("commit", keys[:4], {"merge": False}), ("delete", keys[:4]), ("commit", keys[4:], {"merge": False})]
+        for contended in (True, False):
+            cfg = {"storage": "file", "compound": True, "frontend": "async", "contended": contended,
+                   "scenario": "commit(mergetype=CLEAR)"}
+            w = cworld.CWorld(dict(cfg, frontend="plain"), variant=si)
+            try:
+                try:
+                    w.run(adocs, plan[:1])
+                    holder = w.ix.writer() if contended else None
+                    aw = writing.AsyncWriter(w.ix, delay=0.01)
+                    for k in keys[4:]:
+                        aw.add_document(**cworld.concrete_kwargs(adocs[k]))
+                    if holder is not None:
+                        aw.commit(mergetype=writing.CLEAR)          # deferred: the lock is held
+                        holder.cancel()
+                    else:
+                        aw.commit(mergetype=writing.CLEAR)
+                    if aw.is_alive():
+                        aw.join(60)
+                    with w.reader() as rd:
+                        idx = cworld.abstract_index(rd, adocs)
+                        obs = cworld.dump(rd, idx, w.schema, rng=rng, maxterms=5, plan=plan)
+                        run.count(len(obs))
+                    cases.append({"idx": idx, "obs": obs, "cfg": cfg, "plan": plan, "adocs": adocs, "variant": si})
+                except Exception as ex:
+                    cases.append({"idx": {"docs": []}, "obs": [{"kind": "error", "path": "CLEAR commit through AsyncWriter",
+                                                                "err": type(ex).__name__, "msg": str(ex)[:160],
+                                                                "where": content.where(ex)}],
+                                  "cfg": cfg, "plan": plan, "adocs": adocs})
+            finally:
+                w.close()
     rejects = content.judge(run, cases)
     content.report(run, "c18", cases, rejects)
     run.extra["configurations"] = len(cases)
